@@ -116,6 +116,7 @@ fn error_case(srv: &Srv, kind: &str, k: usize) -> Vec<(String, String)> {
         }
     }
     if !transfer_over && viol.is_empty() {
+        barrier(srv); // the listener has finished the request, so the transfer thread exists by now
         c.to_peer(&rc::error(0, "peer aborts"));
         // the transfer must end at once
         match wait_workers_gone(BACKSTOP) {
@@ -183,6 +184,7 @@ fn silence_case(srv: &Srv, kind: &str) -> (Vec<(String, String)>, Value) {
             let first = c.recv_wait(BACKSTOP);
             match first.as_ref().map(|(b, _)| rc::decode(b)) {
                 Some(Ok(RPacket::Oack(_))) => {
+                    barrier(srv); // the transfer thread has been spawned
                     if !write {
                         c.to_peer(&rc::ack(0));
                     }
